@@ -1649,10 +1649,18 @@ def quantile(
         # the floating dtype of ``a``
         q_arr = q_arr.astype(a.dtype)
     kwargs = {}
+    func = np.quantile
+    args = (q_arr,)
     if weights is not None:
         if not NUMPY_GE_200:
             raise NotImplementedError("da.quantile with weights requires NumPy >=2.0")
-        kwargs["weights"] = asarray_safe(weights, like=a)
+        weights = asarray_safe(weights, like=a)
+        if weights.ndim > 1 and weights.shape == a.shape:
+            # weights of the shape of ``a`` are cut into the same blocks as ``a``
+            func = partial(_quantile_weighted_block, func=func)
+            args = (weights.rechunk(a.chunks), q_arr)
+        else:
+            kwargs["weights"] = weights
 
     # weights break meta inference (dummy-array shape mismatches weights length).
     # There are also issues on NumPy 1.x.
@@ -1663,8 +1671,8 @@ def quantile(
     ).dtype
 
     result = a.map_blocks(
-        np.quantile,
-        q_arr,
+        func,
+        *args,
         method=method,
         axis=axis,
         keepdims=keepdims,
@@ -1677,6 +1685,11 @@ def quantile(
 
     result = handle_out(out, result)
     return result
+
+
+def _quantile_weighted_block(a, weights, q, func=None, **kwargs):
+    # ``weights`` is the block of the weights that belongs to the block ``a``
+    return func(a, q, weights=weights, **kwargs)
 
 
 def _span_indexers(a):
@@ -1846,6 +1859,7 @@ def nanquantile(
         # NumPy treats a Python scalar ``q`` as weakly typed: the result keeps
         # the floating dtype of ``a``
         q_arr = q_arr.astype(a.dtype)
+    args = (q_arr,)
     if (
         HAS_NUMBAGG
         and (a.dtype.kind in "ui" or a.dtype == np.float64)
@@ -1865,7 +1879,13 @@ def nanquantile(
                 raise NotImplementedError(
                     "da.nanquantile with weights requires NumPy >=2.0"
                 )
-            kwargs["weights"] = asarray_safe(weights, like=a)
+            weights = asarray_safe(weights, like=a)
+            if weights.ndim > 1 and weights.shape == a.shape:
+                # weights of the shape of ``a`` are cut into the same blocks as ``a``
+                func = partial(_quantile_weighted_block, func=func)
+                args = (weights.rechunk(a.chunks), q_arr)
+            else:
+                kwargs["weights"] = weights
     # weights break meta inference (dummy-array shape mismatches weights length).
     # There are also issues on NumPy 1.x.
     dtype = np.nanquantile(
@@ -1876,7 +1896,7 @@ def nanquantile(
 
     result = a.map_blocks(
         func,
-        q_arr,
+        *args,
         axis=axis,
         drop_axis=axis if not keepdims else None,
         new_axis=list(range(q_arr.ndim)) if q_arr.ndim > 0 else None,
